@@ -180,3 +180,9 @@ def run(ctx):
     r6_3(ctx)
     r6_4(ctx)
     r6_5(ctx)
+    # a worker is FREE / WORKING / ABSENCE by the per-step state table and the start/finish transitions: a worker that is wrongly not
+    # FREE is never offered to the task that waits for it
+    from .C10 import r10_2
+    from .C03 import r3_4
+    r10_2(ctx)
+    r3_4(ctx)
